@@ -161,9 +161,24 @@ def fft_case(rec, seedt):
     rng = gen.rng_for(*seedt)
     N = int(rng.choice([2, 3, 4, 5, 8, 9, 64, 65, 1000, 1001, int(rng.integers(2, 3000)),
                         4096, 4097, 16385, 65536, 65537]))
-    kind = str(rng.choice(["complex", "real-mag", "one-sided", "ones"]))
+    kind = str(rng.choice(["complex", "real-mag", "one-sided", "ones", "positive-half-masked",
+                           "sparse"]))
     if kind == "complex":
         F = rng.standard_normal(N) + 1j * rng.standard_normal(N)
+    elif kind in ("positive-half-masked", "sparse"):
+        # exact zeros among the positive-frequency bins while the (ignored) negative half of the
+        # template is not zero there: a flat or measured template with only its positive half
+        # cut to a band, or a sparse line spectrum
+        F = (rng.uniform(0.5, 2, size=N) * np.exp(1j * rng.uniform(0, 6.28, size=N))).astype(complex)
+        Np_ = (N - 1) // 2
+        if Np_ >= 1:
+            if kind == "sparse":
+                keep = rng.random(Np_) < 0.2
+            else:
+                a_, b_ = sorted(int(v) for v in rng.integers(0, Np_ + 1, size=2))
+                keep = np.zeros(Np_, dtype=bool)
+                keep[a_:b_] = True
+            F[1:Np_ + 1][~keep] = 0.0
     elif kind == "real-mag":
         F = rng.uniform(0, 5, size=N).astype(complex)
     elif kind == "one-sided":
